@@ -41,6 +41,9 @@ const (
 	// FaultCrash: this and every later operation fails and nothing more is applied (the process lost its storage /
 	// died at this point); cleared by ClearFaults, which models the restart over the durable state.
 	FaultCrash = "crash"
+	// FaultDeadline: the back end gives up on its own (an internal timeout): the operation fails with
+	// context.DeadlineExceeded although the CALLER's context is still live.
+	FaultDeadline = "err-own-deadline"
 )
 
 var errApplyFirst = errors.New("simstore: apply, then fail")
@@ -68,6 +71,9 @@ type Store struct {
 	PermuteList bool
 	// NodeOrder decides the order of LoadByNodeId results; nil = sorted by id.
 	NodeOrder func(ids []string) []string
+	// NativeLookup: LoadByNodeId is delegated to the back end's own implementation when it has one (the store-once back
+	// end does); order and multiplicity of the result are then the back end's, not tape choices.
+	NativeLookup bool
 	// EmptyOnMiss: LoadByNodeId answers "no records under this node ID" with an empty set and a nil error
 	// (what a SQL-backed implementation naturally does) instead of ErrNotFound.
 	EmptyOnMiss bool
@@ -140,6 +146,8 @@ func (s *Store) begin(ctx context.Context, kind string, m proto.Message, id stri
 			err = fmt.Errorf("%w (call %d %s %s)", ErrInjected, c.Seq, kind, c.Type)
 		case FaultNotFound:
 			err = fmt.Errorf("injected: %w", nodeenrollment.ErrNotFound)
+		case FaultDeadline:
+			err = fmt.Errorf("simstore: back end timed out (call %d %s %s): %w", c.Seq, kind, c.Type, context.DeadlineExceeded)
 		case FaultCancel:
 			if s.Cancel != nil {
 				s.Cancel()
@@ -272,6 +280,10 @@ func (n *NL) LoadByNodeId(ctx context.Context, m nodeenrollment.MessageWithNodeI
 	_, err := s.begin(ctx, "loadbynodeid", m, m.GetNodeId())
 	if err != nil {
 		return err
+	}
+	if nl, ok := s.Inner.(nodeenrollment.NodeIdLoader); ok && s.NativeLookup {
+		s.R.Count("ops.storage.native_lookup_by_node_id", 1)
+		return nl.LoadByNodeId(ctx, m)
 	}
 	if m.GetNodeId() == "" {
 		return errors.New("simstore: node id required")
